@@ -104,9 +104,18 @@ def loadSegments (f : Bytes) (pht : List Ph) (d : Mem) : Option Mem :=
        else copyBytes f ph.off (OFF0 + ph.vaddr) ph.filesz d)
     else some d) d
 
-def splitWs (s : String) : List String :=
-  (s.split (fun c => c == ' ' || c == '\t' || c == '\n' || c == '\r' || c == '\x0b' || c == '\x0c')).toList
-    |>.map (·.toString) |>.filter (· ≠ "")
+/-- the ASCII characters `char::is_whitespace` accepts (the argument strings of C12 are ASCII) -/
+def isWs (c : Char) : Bool := c == ' ' || c == '\t' || c == '\n' || c == '\r' || c == '\x0b' || c == '\x0c'
+
+/-- `str::split_whitespace` on a character list: maximal runs of non-whitespace characters, in order.
+    `cur` is the word being read, reversed. -/
+def splitWsL : List Char → List Char → List (List Char)
+  | [], cur => if cur.isEmpty then [] else [cur.reverse]
+  | c :: cs, cur =>
+    if isWs c then (if cur.isEmpty then splitWsL cs [] else cur.reverse :: splitWsL cs [])
+    else splitWsL cs (c :: cur)
+
+def splitWs (s : String) : List String := (splitWsL s.toList []).map String.ofList
 
 structure Loaded where
   dram : Mem
@@ -147,6 +156,16 @@ def stackBranch (l : Loaded) (programSize stackSize : Nat) (args : String) : Opt
   let (d, _, _) ← argLoop (l.dram, a, a + 4 * (argsList.length + 1)) (argsList.map strBytes)
   pure { l with dram := d }
 
+/-- one entry of the `.symtab` loop: parse the 16-byte entry `k`, look its name up in the string table, and take
+    value + load base as the exit address when the name is `___exit` -/
+def symStep (f : Bytes) (symOff strOff : Nat) (l : Loaded) (k : Nat) : Option Loaded := do
+  let o := symOff + 16 * k
+  let nameIdx ← be32 f o; let value ← be32 f (o + 4)
+  let _ ← be32 f (o + 8); let _ ← be16 f (o + 12); let _ ← be16 f (o + 14)
+  if strOff + nameIdx > f.size then none
+  let nm := (cstr f (strOff + nameIdx)).getD "Error"
+  if nm == "___exit" then pure { l with exitAddr := some ((value + PROGRAM_START) % 2 ^ 32) } else pure l
+
 /-- `elf::load` -/
 def load (f : Bytes) (args : String) (dram0 : Mem) : Option Loaded := do
   -- header (parse_elf_header32): magic, then fields at fixed offsets
@@ -182,13 +201,7 @@ def load (f : Bytes) (args : String) (dram0 : Mem) : Option Loaded := do
       let n := h.size / h.entsize
       if h.off > f.size then none
       let strSec ← sht[h.link]?
-      (List.range n).foldlM (fun (l : Loaded) k => do
-        let o := h.off + 16 * k
-        let nameIdx ← be32 f o; let value ← be32 f (o + 4)
-        let _ ← be32 f (o + 8); let _ ← be16 f (o + 12); let _ ← be16 f (o + 14)
-        if strSec.off + nameIdx > f.size then none
-        let nm := (cstr f (strSec.off + nameIdx)).getD "Error"
-        if nm == "___exit" then pure { l with exitAddr := some ((value + PROGRAM_START) % 2 ^ 32) } else pure l) l
+      (List.range n).foldlM (symStep f h.off strSec.off) l
     else pure l) l
 
 end H8.Elf
